@@ -440,17 +440,21 @@ func (e *env) flushWindow(name string, wi int, park string, ops, post []opSpec) 
 			c.acks = append(c.acks[:nacks:nacks], append([]ack{{false, 0, v}}, c.acks[nacks:]...)...)
 		}
 	} else {
+		// the write tick of this swamp becomes a logical thread the first time it finds something to
+		// write (the rule is registered before the first Save, so no tick can slip through)
+		ftid := e.tid()
+		e.ctl.Adopt("swamp.flush.begin", func(a []int64) bool {
+			o := e.inst(name)
+			return o != nil && len(a) > 0 && verifhook.ID(o) == a[0]
+		}, ftid)
 		request(opSpec{false, 0}, true)
 		if obj == nil {
 			c.hung = "no instance"
 			return c
 		}
-		id := verifhook.ID(obj)
 		fmt0 := mtid
 		mtid++
-		ftid := e.tid()
 		c.bprogs = append(c.bprogs, "(Pb 3 0 0 0)")
-		e.ctl.Adopt("swamp.flush.begin", func(a []int64) bool { return len(a) > 0 && a[0] == id }, ftid)
 		if ok, _ := e.waitParked(ftid, 2500*time.Millisecond); !ok {
 			c.hung = "write tick did not arrive"
 			return c
